@@ -18,6 +18,8 @@ mod util;
 mod outcome;
 mod roundtrip;
 mod corpus;
+#[cfg(feature = "full")]
+mod serde_fam;
 mod model {
     pub mod fold;
     pub mod list;
